@@ -63,6 +63,20 @@ func c06Plan(tier string) []PlanItem {
 	s.OnlyInst = []string{"B"}
 	s.LatencyBound = 0
 	add(s, d)
+	// the candidate is cut off for a short while around the vacancy (its requests fail
+	// fast, several in a row) and then the store is reachable again: the bound applies
+	// from the recovery
+	for _, w := range []time.Duration{250 * ms, 700 * ms} {
+		s = scnFailoverDel(fmt.Sprintf("failover-del2-K1-candidate-outage-%v", w), K1, "A", "B")
+		tStop := 2*s.H + 53*ms
+		s.Script = append(s.Script, Item{At: tStop - 40*ms, Actor: "chaos", Do: "partition", Inst: "B", Fixed: true},
+			Item{At: tStop - 40*ms + w, Actor: "chaos", Do: "heal", Inst: "B", Fixed: true})
+		s.PartitionTimeout = 30 * ms
+		s.Horizon = tStop + w + 6500*ms
+		s.LatencyBound = 0
+		s.AllowDrop = true
+		add(s, d)
+	}
 	// the candidate's watch channel closes before the vacancy
 	s = scnFailoverDel("failover-del2-K1-watch-closed", K1, "A", "B")
 	s.Script = append(s.Script, Item{At: 1*s.H + 11*ms, Actor: "chaos", Do: "closewatch", Inst: "B"})
@@ -89,8 +103,9 @@ func oracleC06(r *Result) ([]Violation, bool) {
 	end := r.EndT
 	// --- health intervals per instance
 	type life struct {
-		startOK time.Duration // first successful Start return
-		unhealthyFrom time.Duration // stop call / crash / partition (first), or -1
+		startOK       time.Duration // first successful Start return
+		unhealthyFrom time.Duration // stop call / crash (first), or -1
+		cuts          []span        // partition windows (to = -1: never healed)
 	}
 	lives := map[string]*life{}
 	for _, sp := range r.Scn.Insts {
@@ -110,8 +125,14 @@ func oracleC06(r *Result) ([]Violation, bool) {
 			l.startOK = e.T
 		case e.K == "api.call" && strings.HasPrefix(e.S, "stop") && l.unhealthyFrom < 0:
 			l.unhealthyFrom = e.T
-		case (e.K == "crash" || e.K == "partition") && l.unhealthyFrom < 0:
+		case e.K == "crash" && l.unhealthyFrom < 0:
 			l.unhealthyFrom = e.T
+		case e.K == "partition":
+			l.cuts = append(l.cuts, span{e.T, -1})
+		case e.K == "heal":
+			if n := len(l.cuts); n > 0 && l.cuts[n-1].to < 0 {
+				l.cuts[n-1].to = e.T
+			}
 		case e.K == "closewatch":
 			watchLost[e.I] = true
 		}
@@ -121,9 +142,27 @@ func oracleC06(r *Result) ([]Violation, bool) {
 			watchLost[op.Inst] = true
 		}
 	}
-	healthyThrough := func(id string, a, b time.Duration) bool {
+	// healthyThrough: started before a, not stopped / crashed up to b, and not cut off at
+	// b; a partition that was healed inside [a,b] counts as a transient fault that ceased
+	// at the heal time (returned as recovery).
+	healthyThrough := func(id string, a, b time.Duration) (bool, time.Duration) {
 		l := lives[id]
-		return l != nil && l.startOK >= 0 && l.startOK <= a && (l.unhealthyFrom < 0 || l.unhealthyFrom > b)
+		if l == nil || l.startOK < 0 || l.startOK > a || (l.unhealthyFrom >= 0 && l.unhealthyFrom <= b) {
+			return false, 0
+		}
+		var rec time.Duration
+		for _, c := range l.cuts {
+			if c.from > b {
+				continue
+			}
+			if c.to < 0 || c.to > b {
+				return false, 0 // still cut off at b
+			}
+			if c.to > a && c.to > rec {
+				rec = c.to
+			}
+		}
+		return true, rec
 	}
 	// --- promotion edges
 	type edge struct {
@@ -214,9 +253,13 @@ func oracleC06(r *Result) ([]Violation, bool) {
 			winEnd = tFill
 		}
 		var cands []string
+		var healed time.Duration
 		for id := range lives {
-			if healthyThrough(id, v.t, winEnd) {
+			if ok, rec := healthyThrough(id, v.t, winEnd); ok {
 				cands = append(cands, id)
+				if rec > healed {
+					healed = rec
+				}
 			}
 		}
 		sort.Strings(cands)
@@ -231,6 +274,9 @@ func oracleC06(r *Result) ([]Violation, bool) {
 		// injected latencies and faults on the candidates inside the window
 		var lam time.Duration
 		tr := v.t
+		if healed > tr {
+			tr = healed
+		}
 		lostWatch := false
 		for _, op := range r.Ops {
 			if !isCand[op.Inst] || !op.isStoreOp() {
